@@ -169,6 +169,56 @@ pub fn chunk_ops(s: &Seed, max: usize) -> Vec<Dev> {
     v
 }
 
+/// The writers of /repo may start thread pools (rayon inside the image / DBC code). A process that
+/// has started one cannot fork children that use it, so the seeds are produced in a short-lived
+/// child and shipped back through a pipe; the worker itself never calls into /repo.
+fn seeds_in_child(fmt: &dyn Format) -> Vec<Seed> {
+    if std::env::var("C05_NOFORK").is_ok() {
+        return fmt.seeds();
+    }
+    let mut fds = [0i32; 2];
+    assert!(unsafe { libc::pipe(fds.as_mut_ptr()) } == 0, "pipe");
+    let pid = unsafe { libc::fork() };
+    assert!(pid >= 0, "fork");
+    if pid == 0 {
+        unsafe { libc::close(fds[0]) };
+        let ok = std::panic::catch_unwind(std::panic::AssertUnwindSafe(|| encode_seeds(&fmt.seeds())));
+        let code = match ok {
+            Ok(buf) => {
+                let mut o = 0;
+                while o < buf.len() {
+                    let n = unsafe { libc::write(fds[1], buf[o..].as_ptr() as *const libc::c_void, buf.len() - o) };
+                    if n <= 0 {
+                        break;
+                    }
+                    o += n as usize;
+                }
+                if o == buf.len() { 0 } else { 3 }
+            }
+            Err(_) => 4,
+        };
+        unsafe { libc::_exit(code) };
+    }
+    unsafe { libc::close(fds[1]) };
+    let mut buf = vec![];
+    let mut tmp = vec![0u8; 1 << 16];
+    loop {
+        let n = unsafe { libc::read(fds[0], tmp.as_mut_ptr() as *mut libc::c_void, tmp.len()) };
+        if n <= 0 {
+            break;
+        }
+        buf.extend_from_slice(&tmp[..n as usize]);
+    }
+    unsafe { libc::close(fds[0]) };
+    let mut status = 0;
+    unsafe { libc::waitpid(pid, &mut status, 0) };
+    if !(libc::WIFEXITED(status) && libc::WEXITSTATUS(status) == 0) {
+        eprintln!("machinery: seed generation for format {} failed (status {status:#x})", fmt.name());
+        std::process::exit(2);
+    }
+    decode_seeds(&buf)
+}
+
 fn all_formats() -> Vec<Box<dyn Format>> {
     vec![
         Box::new(fmt_wd::Wdt),
@@ -187,6 +237,9 @@ fn all_formats() -> Vec<Box<dyn Format>> {
     ]
 }
 const FORMAT_NAMES: [&str; 13] = ["wdt", "wdl", "dbc", "blp", "skin", "anim", "m2", "wmo_root", "wmo_group", "adt", "ptch", "codec", "mpq"];
+/// seeds each format is expected to yield (a seed is dropped when the crate's writer refuses it or its
+/// own parser no longer accepts it); fewer is reported in the evidence, none is a machinery failure
+const EXPECTED_SEEDS: [usize; 13] = [7, 6, 10, 12, 8, 8, 14, 9, 8, 16, 4, 5, 17];
 
 // ------------------------------------------------------------------ panic site -> function cache
 
@@ -262,7 +315,7 @@ struct FormatSpace {
     spaces: Vec<SeedSpace>,
     /// cumulative case counts
     cum: Vec<u64>,
-    sandbox: OnceLock<(Scratch, Sandbox)>,
+    sandbox: OnceLock<(Scratch, Sandbox, Option<sandbox::SymServer>)>,
     syms: OnceLock<SymCache>,
 }
 
@@ -278,11 +331,11 @@ struct Budget {
 impl FormatSpace {
     fn new(fmt: Box<dyn Format>, tier: Tier) -> FormatSpace {
         let _ = THOROUGH.set(tier == Tier::Thorough);
-        let mut seeds = fmt.seeds();
+        let mut seeds = seeds_in_child(&*fmt);
         seeds.sort_by_key(|s| s.bytes.len());
         let b = match tier {
             Tier::Quick => Budget { sites: 120, vals: (0..VALS.len()).collect(), chunk_ops: 24, pair_sites: 0, pair_seeds: 0 },
-            Tier::Thorough => Budget { sites: 1600, vals: (0..VALS.len()).collect(), chunk_ops: 400, pair_sites: 40, pair_seeds: 2 },
+            Tier::Thorough => Budget { sites: 1600, vals: (0..VALS.len()).collect(), chunk_ops: 400, pair_sites: 40, pair_seeds: usize::MAX },
         };
         // the seeds with the most header-level sites carry the 2-deviation class
         let mut by_hdr: Vec<usize> = (0..seeds.len()).collect();
@@ -319,14 +372,26 @@ impl FormatSpace {
             Ok(k) => k,
             Err(k) => k - 1,
         };
-        let k = k.min(self.seeds.len() - 1);
+        let k = k.min(self.seeds.len().saturating_sub(1));
         (k, self.spaces[k].dev(i - self.cum[k]))
     }
-    fn sb(&self) -> &(Scratch, Sandbox) {
+    fn sb(&self) -> &(Scratch, Sandbox, Option<sandbox::SymServer>) {
         self.sandbox.get_or_init(|| {
             let sc = Scratch::new(&format!("c05-{}", self.fmt.name()));
             let sb = Sandbox::new(&sc.path("child-stderr.txt"), CASE_SECS);
-            (sc, sb)
+            let srv = if sb.nofork {
+                None
+            } else {
+                sandbox::SymServer::spawn(&|i, skip| {
+                    let (k, d) = self.locate(i);
+                    let s = &self.seeds[k];
+                    match s.apply(&d) {
+                        Some(input) => sb.run(input.len(), true, skip, &|rec: &mut Recorder| self.fmt.run(s, &input, rec, &sc.0)),
+                        None => Default::default(),
+                    }
+                })
+            };
+            (sc, sb, srv)
         })
     }
     fn axes(&self) -> Value {
@@ -338,7 +403,7 @@ impl FormatSpace {
             "field_sites_located": self.seeds.iter().map(|s| s.sites.len() as u64).sum::<u64>(),
             "values_per_site": VALS.len(),
             "chunk_edit_cases": self.spaces.iter().map(|s| s.chunk_ops.len() as u64).sum::<u64>(),
-            "pair_cases": self.spaces.iter().map(|s| s.pairs() * 25).sum::<u64>(),
+            "pair_cases": self.spaces.iter().map(|s| s.pairs() * (VALS2.len() * VALS2.len()) as u64).sum::<u64>(),
             "cases": self.cum.last().copied().unwrap_or(0),
         })
     }
@@ -365,24 +430,61 @@ impl Space for FormatSpace {
             r.count("cases_identical_to_seed_skipped", 1);
             return r;
         };
-        let (sc, sb) = self.sb();
+        let (sc, sb, srv) = self.sb();
         let body = |rec: &mut Recorder| self.fmt.run(s, &input, rec, &sc.0);
-        let mut rep = sb.run(input.len(), false, &body);
         let name = self.fmt.name();
-        // name the function of every panic site inside /repo (learnt once per site, then cached)
         let syms = self.syms.get_or_init(SymCache::new);
+        // A child that dies (abort, signal, time limit) is re-run without the call that killed it, so
+        // that the remaining entry points of the case are observed too (at most 4 deaths per case).
+        let mut skip: Vec<u32> = vec![];
+        let mut deaths: Vec<sandbox::Death> = vec![];
+        let mut rep;
+        loop {
+            rep = sb.run(input.len(), false, &skip, &body);
+            let Some(d) = rep.death.clone() else { break };
+            let hang = d.class.starts_with("hang");
+            skip.push(d.call_no);
+            deaths.push(d);
+            if deaths.len() >= 4 || hang || sb.nofork {
+                break;
+            }
+            r.count("reruns_after_a_death", 1);
+        }
+        // name the function of every panic site inside /repo (learnt once per site, then cached)
         if !sb.nofork && rep.panics.iter().any(|p| in_repo(&p.file) && syms.get(&p.file, p.line).is_none()) {
-            let rep2 = sb.run(input.len(), true, &body);
+            let got = srv.as_ref().and_then(|x| x.resolve(i, &skip)).map(|x| x.0).unwrap_or_default();
             r.count("symbolizing_reruns", 1);
-            for p in &rep2.panics {
-                if in_repo(&p.file) && syms.get(&p.file, p.line).is_none() {
-                    syms.put(&p.file, p.line, &p.func);
+            for (file, line, func) in &got {
+                if in_repo(file) && syms.get(file, *line).is_none() {
+                    syms.put(file, *line, func);
                 }
             }
             for p in &rep.panics {
                 if in_repo(&p.file) && syms.get(&p.file, p.line).is_none() {
                     syms.put(&p.file, p.line, "");
                 }
+            }
+        }
+        for (k, d) in deaths.iter().enumerate() {
+            // name the function the process died in: keyed by the return-address chain of the abort
+            let key = format!("chain:{}", d.chain);
+            let mut func = String::new();
+            if !d.chain.is_empty() && !sb.nofork {
+                func = match syms.get(&key, 0) {
+                    Some(f) => f,
+                    None => {
+                        let got = srv.as_ref().and_then(|x| x.resolve(i, &skip[..k])).and_then(|x| x.1);
+                        r.count("symbolizing_reruns", 1);
+                        let f = got.filter(|x| x.0 == d.chain).map(|x| x.1).unwrap_or_default();
+                        syms.put(&key, 0, &f);
+                        f
+                    }
+                };
+            }
+            let site = if func.is_empty() { String::new() } else { format!(" in {func}") };
+            let sym = format!("{}: {}{}", d.ep, d.class, site);
+            if !rep.viols.iter().any(|v| v.0 == sym) {
+                rep.viols.push((sym, d.detail.clone()));
             }
         }
         for p in &rep.panics {
@@ -413,7 +515,7 @@ impl Space for FormatSpace {
         if !reached {
             r.count("cases_stopped_within_8_bytes", 1);
         }
-        if d == Dev::None && (oks == 0 || !rep.viols.is_empty()) {
+        if d == Dev::None && rep.eps.first().map(|e| e.ok == 0).unwrap_or(true) {
             r.viol(format!("[{name}] harness: the unmodified seed is not accepted by the first entry point"), format!("seed {}: {}", s.name, out));
         }
         r.key = format!("{}/{}/{}", name, s.name, s.describe_dev(&d));
@@ -430,6 +532,75 @@ fn build(name: &str, _arg: &str, tier: Tier) -> Box<dyn Space> {
         }
     }
     panic!("space {name}");
+}
+
+/// Stand-alone reproductions: `--repro` runs a built-in list of minimal cases (one per defect
+/// family), `--repro <format> <substring>...` the first case of the format whose JSON descriptor
+/// contains every substring.  Prints the deviated bytes and what each entry point did.
+fn repro() {
+    let a: Vec<String> = std::env::args().collect();
+    let p = a.iter().position(|x| x == "--repro").unwrap();
+    let tier = if a.iter().any(|x| x == "thorough") { Tier::Thorough } else { Tier::Quick };
+    let rest: Vec<String> = a[p + 1..].iter().filter(|x| *x != "thorough").cloned().collect();
+    let builtin: Vec<(&str, Vec<&str>)> = vec![
+        ("dbc", vec!["wdbc_s0_n0", "\"kind\":\"seed\""]),
+        ("dbc", vec!["wdbc_s0_n1", "header+0x4@", "2^31-1"]),
+        ("dbc", vec!["wdb2_ext_index", "header+0x20@", "2^31-1"]),
+        ("m2", vec!["vanilla_min", "\"kind\":\"seed\""]),
+        ("m2", vec!["wotlk_min", "header+0x8@", "2^31-1"]),
+        ("skin", vec!["skin_new_empty", "header+0x4@", "2^31-1"]),
+        ("anim", vec!["anim_modern_1sec_0bones", "header+0x1c@", "\"value\":\"0\""]),
+        ("blp", vec!["blp2_jpeg", "header+0xc@", "2^31-1"]),
+        ("blp", vec!["blp2_jpeg", "header+0x54@", "2^32-1"]),
+        ("wdl", vec!["vanilla_empty", "REVM[0].size", "2^31-1"]),
+        ("wdt", vec!["bfa_maid", "DIAM[0].size", "\"value\":\"0\""]),
+        ("wdt", vec!["classic_terrain", "OMWM[0].size", "2^31-1"]),
+        ("wmo_root", vec!["XTOM[0].size", "2^31-1"]),
+        ("wmo_group", vec!["PGOM[0].size", "\"value\":\"0\""]),
+        ("adt", vec!["cata_split_root", "O2HM[0]+0x4@", "2^31-1"]),
+        ("adt", vec!["vanilla_early_min", "KNCM[0]", ".size", "2^31-1"]),
+        ("mpq", vec!["v3_store", "header.hash_table_pos@", "\"value\":\"0\""]),
+        ("mpq", vec!["v4_store", "header.het_table_size64.lo", "2^31-1"]),
+        ("mpq", vec!["v1_zlib_sectored", "block_table[1].file_size", "2^31-1"]),
+        ("ptch", vec!["bsd0_300", "header+0x4@", "2^31-1"]),
+    ];
+    let list: Vec<(String, Vec<String>)> = if rest.len() >= 1 {
+        vec![(rest[0].clone(), rest[1..].to_vec())]
+    } else {
+        builtin.into_iter().map(|(f, v)| (f.to_string(), v.into_iter().map(|x| x.to_string()).collect())).collect()
+    };
+    for (fmt, subs) in list {
+        let Some(f) = all_formats().into_iter().find(|f| f.name() == fmt) else {
+            println!("unknown format {fmt}");
+            continue;
+        };
+        let sp = FormatSpace::new(f, tier);
+        let Some(i) = (0..sp.len()).find(|&i| {
+            let d = sp.describe(i).to_string();
+            subs.iter().all(|x| d.contains(x.as_str()))
+        }) else {
+            println!("== {fmt} {subs:?}: no such case in the {} tier space", tier.as_str());
+            continue;
+        };
+        let (k, d) = sp.locate(i);
+        let seed = &sp.seeds[k];
+        println!("== {fmt} case #{i}: {}", sp.describe(i));
+        if let Some(input) = seed.apply(&d) {
+            let diff: Vec<usize> = (0..input.len().min(seed.bytes.len())).filter(|&j| input[j] != seed.bytes[j]).collect();
+            println!("   input: {} bytes (seed {} bytes); differing byte offsets: {:?}{}", input.len(), seed.bytes.len(), &diff[..diff.len().min(12)], if diff.len() > 12 { " ..." } else { "" });
+            let lo = diff.first().copied().unwrap_or(0) / 16 * 16;
+            let hi = (lo + 32).min(input.len());
+            println!("   bytes[{lo:#x}..{hi:#x}] = {}", input[lo..hi].iter().map(|b| format!("{b:02x}")).collect::<Vec<_>>().join(" "));
+        }
+        let r = sp.run(i);
+        println!("   outcome: {}", r.outcome);
+        for v in &r.viols {
+            println!("   VIOLATION {} :: {}", v.symptom, v.detail);
+        }
+        if r.viols.is_empty() {
+            println!("   no violation");
+        }
+    }
 }
 
 fn arg_after(flag: &str) -> Option<String> {
@@ -449,6 +620,10 @@ fn main() {
         println!("warm symbolization: {:?}; {}", t.elapsed(), rss());
         return;
     }
+    if std::env::args().any(|a| a == "--repro") {
+        repro();
+        return;
+    }
     if std::env::args().any(|a| a == "--seeds") {
         // list the seeds of every format (debug aid)
         let _ = THOROUGH.set(std::env::args().any(|a| a == "thorough"));
@@ -465,15 +640,18 @@ fn main() {
         quick: all < 256, every 7th < 4 KiB, every 997th beyond, last 16); every located 32-bit field position (header dwords, magic/size/first payload dwords of every chunk incl. sub-chunks, \
         table entries, for MPQ also the plaintext dwords inside the encrypted hash/block/HET/BET tables: decrypt, patch, re-encrypt) x 10 values {0,1,2^31-1,2^31,2^32-1,field-1,field+1,file_len,file_len-1,file_len+1} \
         (quick: header-level sites all, the rest strided to 120 sites per seed; thorough: up to 1600 per seed); delete/duplicate/swap-with-next of every chunk (sizes of enclosing chunks kept consistent; quick strided to 24 chunks per seed); \
-        thorough only: all pairs of <= 40 header-level sites x 5x5 values {0,2^32-1,2^31,field+1,file_len} for two seeds per format. \
+        thorough only: all pairs of <= 40 header-level sites (strided if a seed has more) x 6x6 values {0,2^32-1,2^31-1,2^31,field+1,file_len} for every seed. \
         Every case runs all entry points of the format in a forked child under the monitors: no panic, no abort/signal, no stack overflow, return within 50 s (engine watchdog 60 s), \
         no single allocation request and no peak live heap above 256 MiB + 4096 x input_len (requests above the limit are refused by the counting allocator). \
-        A case is non-trivial when the input differs from nothing-at-all in the sense that a parser read past byte 8 of it (counting reader; for path/slice-only APIs: input longer than 8 bytes); cases whose deviation leaves the seed unchanged are skipped and counted. Distinct by (format, seed, deviation)."
+        A dying child is re-run without the call that killed it (up to 4 deaths per case) so that the other entry points of the case are still observed. \
+        A case is non-trivial when a parser consumed more than 8 bytes of its input (counting reader; for the path/slice-only APIs of mpq, blp, ptch, codec: input longer than 8 bytes); cases whose deviation leaves the seed unchanged are skipped and counted. Distinct by (format, seed, deviation). \
+        Symptom = entry point + failure class + site (panic: source file, innermost /repo function, message with digits collapsed; abort: innermost /repo function of the dying call chain)."
         .into();
     c.assume("seed files are valid inputs: each is accepted by the first entry point of its format (checked: case 0 of every seed is the unmodified seed)");
     c.assume("a request above the limit is refused by the allocator (null), so the observed failure mode of such a request is an abort of the forked child; it is reported as an allocation-rule violation of the entry point that was running");
     c.assume("time limit 50 s per case inside the child (alarm), all entry points of the case together");
     let mut axes = serde_json::Map::new();
+    let mut shortfall: Vec<String> = vec![];
     for name in FORMAT_NAMES {
         if let Some(o) = &only {
             if !o.iter().any(|x| x == name) {
@@ -481,11 +659,23 @@ fn main() {
             }
         }
         let sp = FormatSpace::new(all_formats().into_iter().find(|f| f.name() == name).unwrap(), c.tier);
+        let want = EXPECTED_SEEDS[FORMAT_NAMES.iter().position(|n| *n == name).unwrap()];
+        if sp.seeds.is_empty() {
+            c.machinery_errors.push(format!("format {name}: no valid seed could be produced"));
+            continue;
+        }
+        if sp.seeds.len() < want {
+            eprintln!("note: format {name}: {} of {want} expected seeds were produced", sp.seeds.len());
+            shortfall.push(format!("{name}: {} of {want}", sp.seeds.len()));
+        }
         axes.insert(name.to_string(), sp.axes());
         drop(sp);
         c.run_space(name, "");
     }
     c.extra_cov.insert("axes".into(), Value::Object(axes));
+    if !shortfall.is_empty() {
+        c.extra_cov.insert("seed_shortfall".into(), json!(shortfall));
+    }
     if let Some(o) = &only {
         c.extra_cov.insert("only_formats".into(), json!(o));
     }
